@@ -11,6 +11,7 @@ import re
 from typing import Any
 
 from harness import fakes, vloop
+from harness.ext_c14 import GRACE_MS, life_ms  # the lifetime of a message's kind, as C14 derives it (J13)
 
 _TS = re.compile(r"^(\d{4}-\d\d-\d\d[T ]\d\d:\d\d:\d\d\.\d{6}) (.*)$")
 
@@ -61,6 +62,8 @@ def is_chrono(lines: list[str]) -> bool:
 
 def derive(rnd: random.Random, base: list[str], other: list[str], how: str) -> list[str]:
     n = len(base)
+    if how == "polled":
+        return derive_polled(rnd, base)
     if how == "full" or n < 2:
         return list(base)
     if how == "prefix":
@@ -89,6 +92,43 @@ def derive(rnd: random.Random, base: list[str], other: list[str], how: str) -> l
     raise ValueError(how)
 
 
+# the history as a gateway that polls would have heard it (C16's histories come from gateways that do: the shipped
+# logs hold such exchanges, e.g. RQ|1F09 / RP|1F09 in heat_simple): after a controller's announcement of a
+# polled code the gateway's RQ for it and the controller's RP - the same data addressed to the gateway, a
+# sync-cycle countdown less the time that has passed.  RPs are kept in their own store (code, verb RP).
+_ANN = re.compile(r"^(\S+)([T ])(\S+) (\S+)  I --- (01:\d{6}) --:------ \5 (1F09|2309|30C9) (\d{3}) ((?:[0-9A-F]{6})+)\s")
+_HGI = re.compile(r" (18:\d{6}) ")
+
+
+def derive_polled(rnd: random.Random, base: list[str]) -> list[str]:
+    hgi = next((m.group(1) for ln in base for m in [_HGI.search(ln)] if m), fakes.GWY_ID)
+    out = list(base)
+    i = n_ins = 0
+    while i < len(out):
+        m = _ANN.match(out[i])
+        i += 1
+        if not m or rnd.random() < 0.5:
+            continue
+        day, sep, clk, rssi, ctl, code, _, pl = m.groups()
+        t0 = _dt.datetime.fromisoformat(f"{day}T{clk}")
+        d = rnd.choice((0.4, 7.0, 61.0)) + rnd.randrange(1, 9999) * 1e-6
+        if code == "1F09":
+            left = max(0, int(pl[2:6], 16) - int(d * 10))
+            rq, rp = "00", f"00{left:04X}"
+        else:  # one zone of the array
+            k = 6 * rnd.randrange(len(pl) // 6)
+            rq, rp = pl[k:k + 2], pl[k:k + 6]
+        t1, t2 = t0 + _dt.timedelta(seconds=d), t0 + _dt.timedelta(seconds=d + 0.0127)
+        fmt = lambda t: t.isoformat(sep=sep, timespec="microseconds")  # noqa: E731
+        while i < len(out) and out[i][:26].replace(" ", "T") <= fmt(t2).replace(" ", "T"):
+            i += 1  # in arrival order: after what was received before the reply
+        out[i:i] = [f"{fmt(t1)} {rssi} RQ --- {hgi} {ctl} --:------ {code} {len(rq) // 2:03d} {rq}\n",
+                    f"{fmt(t2)} {rssi} RP --- {ctl} {hgi} --:------ {code} {len(rp) // 2:03d} {rp}\n"]
+        i += 2
+        n_ins += 1
+    return out if n_ins else []
+
+
 # --------------------------------------------------------------------------------------
 # recording
 
@@ -115,6 +155,7 @@ class _Clock:
 
 
 _decode_cache: dict[tuple[str, str], Any] = {}
+AGE_CAP_MS = 2_000_000_000  # JSON ints for TLC must stay below 2^31; ~23 days, far beyond 2 x any lifetime (<= 1 day)
 
 
 def line_facts(dtm: str, line: str, T) -> dict:
@@ -131,22 +172,32 @@ def line_facts(dtm: str, line: str, T) -> dict:
             m = err
         _decode_cache[key] = m
     if isinstance(m, Exception):
-        return {"und": True, "rq": False, "wr": False, "tc": False, "exp": False}
+        return {"und": True, "rq": False, "wr": False, "tc": False, "exp": False, "age": 0, "life": -1}
     m._gwy = _Clock(T)  # type: ignore[assignment]
     m._fraction_expired = None
     try:
         exp = bool(m._expired)
     except Exception:  # noqa: BLE001
         exp = False
+    # the inputs of C14's lifetime rule (judged in SnapshotTrace, independently of `_expired`): the packet's age
+    # by the clock of the snapshot, rounded down, and the lifetime of its kind as C14 reads it (the payload's
+    # countdown for a 1F09 of any verb but RQ, else the packet's lifespan; -1 = never; both are whole ms)
+    try:
+        life = life_ms(m)
+    except Exception:  # noqa: BLE001  (no lifetime to be had: nothing is demanded)
+        life = -1
+    if 2 * life + GRACE_MS >= AGE_CAP_MS:
+        raise RuntimeError(f"lifetime {life} ms of {line!r} is beyond the age cap")
+    age = max(0, min(AGE_CAP_MS, (T - m.dtm) // _dt.timedelta(milliseconds=1)))
     return {"und": False, "rq": m.verb == "RQ", "wr": m.verb == " W" and m.code != "0404",
-            "tc": m.code == "313F", "exp": exp}
+            "tc": m.code == "313F", "exp": exp, "age": int(age), "life": life}
 
 
 def snap_record(gwy: Any, g: int, ie: int, T, pid: Interner, sid: Interner) -> tuple[dict, dict | None]:
     from ramses_rf.helpers import shrink
 
     rec = {"op": "snap", "g": g, "ie": ie, "src": 0, "ok": 1, "pk": [], "exp": [], "rq": [], "wr": [],
-           "und": [], "tc": [], "sch": 0}
+           "und": [], "tc": [], "age": [], "life": [], "sch": 0}
     try:
         schema, pkts = gwy.get_state(include_expired=bool(ie))
     except Exception as err:  # noqa: BLE001
@@ -162,6 +213,8 @@ def snap_record(gwy: Any, g: int, ie: int, T, pid: Interner, sid: Interner) -> t
         for k in ("exp", "rq", "wr", "und", "tc"):
             if f[k]:
                 rec[k].append(i)
+        rec["age"].append(f["age"])
+        rec["life"].append(f["life"])
     rec["sch"] = sid(json.dumps(shrink(schema), sort_keys=True))
     return rec, pkts
 
@@ -204,7 +257,7 @@ async def one_pass(lines: list[str], ie: int, eav: int, g_src: int, g_new: int, 
 
         async def restore(gw: Any, g: int) -> None:
             rec = {"op": "restore", "g": g, "ie": ie, "src": 1, "ok": 1, "pk": [], "exp": [], "rq": [],
-                   "wr": [], "und": [], "tc": [], "sch": 0}
+                   "wr": [], "und": [], "tc": [], "age": [], "life": [], "sch": 0}
             try:
                 await gw._restore_cached_packets(dict(pk))
             except Exception as err:  # noqa: BLE001
